@@ -123,6 +123,11 @@ func (viso *VirtualISO) init() error {
 			return fmt.Errorf("getTitleID failed: %w", err)
 		}
 
+		// it's splitted to product id like BCES-00104 that must fit to 32 bytes field
+		if len(gameCode) <= 4 || len(gameCode) >= 32 {
+			return fmt.Errorf("unexpected TITLE_ID %q", gameCode)
+		}
+
 		volumeName = ps3ModeVolumeName
 	} else {
 		_, volumeName = filepath.Split(viso.root)
